@@ -77,13 +77,14 @@ def asciihexdecode (data : Bytes) : Except Err Bytes :=
 
 /-! ## ASCII85Decode -/
 
+/-- The optional `<` of `start_re`. -/
+def dropLt : Bytes → Bytes
+  | 60 :: t => t
+  | l => l
+
 /-- `start_re = ^\s*<?\s*~\s*` substituted by the empty string. -/
 def stripStart (d : Bytes) : Bytes :=
-  let r0 := d.dropWhile isWs
-  let r1 := match r0 with
-    | 60 :: t => t
-    | _ => r0
-  match r1.dropWhile isWs with
+  match (dropLt (d.dropWhile isWs)).dropWhile isWs with
   | 126 :: t => t.dropWhile isWs
   | _ => d
 
